@@ -149,23 +149,36 @@ Print Assumptions C10_lt_date_brackets.
 (* ---- agreement with the reference semantics on the core domain ---- *)
 
 (* Spec/RefMatch.v: `RefMatch.holds` is the reference truth value (DESIGN.md
-   8.1), `core_covered d f` the core domain (8.2: D1 no array directly in an
-   array, D2 non-null scalar operands and leaf operators only under fan-out,
-   D3 no numeric field names inside array elements, D4 well-formed
-   arguments) restricted to the operators covered by the proof:
-   $and $or $nor, implicit and, literal equality, $eq $gt $gte $lt $lte $ne,
-   $in $nin, $exists, $type, $size, $mod, $bitsAllSet/AllClear/AnySet/AnyClear,
-   $not, $all.  $elemMatch is in `core` but only tested (family matchref);
-   $jsonSchema has no reference semantics here. *)
+   8.1), `core d f` the core domain (8.2: D1 no array directly in an array,
+   D2 non-null scalar operands and leaf operators only under fan-out, D3 no
+   numeric field names inside array elements, D4 well-formed arguments).
+   Every operator of the domain is covered: $and $or $nor, implicit and,
+   literal equality, $eq $gt $gte $lt $lte $ne, $in $nin, $exists, $type,
+   $size, $mod, $bitsAllSet/AllClear/AnySet/AnyClear, $not, $all, $elemMatch.
+   $jsonSchema has no reference semantics here and is outside `core`. *)
+Theorem C10_match_ref : forall d f,
+  core d f -> Match d f = Ok (RefMatch.holds d f).
+Proof. exact match_ref. Qed.
+Print Assumptions C10_match_ref.
+
 Theorem C10_match_ref_partial : forall d f,
   core_covered d f -> Match d f = Ok (RefMatch.holds d f).
 Proof. exact match_ref_partial. Qed.
 Print Assumptions C10_match_ref_partial.
 
+(* the element wrapper used by the reference for $elemMatch is neutral *)
+Theorem C10_elem_root_lookup : forall e p, rlookup (elem_root e) (elem_path ++ p)%list = rlookup e p.
+Proof. exact elem_root_lookup. Qed.
+Print Assumptions C10_elem_root_lookup.
+
 Theorem C10_match_ref_example :
-  core_covered [("a", VArr [VDoc [("b", VInt32 1)]])] [("a.b", VDoc [("$in", VArr [VInt32 2; VString "x"])])]
-  /\ Match [("a", VArr [VDoc [("b", VInt32 1)]])] [("a.b", VDoc [("$in", VArr [VInt32 2; VString "x"])])] = Ok false.
-Proof. vm_compute. split; reflexivity. Qed.
+  core [("a", VArr [VDoc [("b", VInt32 1)]])] [("a.b", VDoc [("$in", VArr [VInt32 2; VString "x"])])]
+  /\ Match [("a", VArr [VDoc [("b", VInt32 1)]])] [("a.b", VDoc [("$in", VArr [VInt32 2; VString "x"])])] = Ok false
+  /\ core [("a", VArr [VDoc [("b", VInt32 1)]; VDoc [("b", VInt32 7)]])]
+          [("a", VDoc [("$elemMatch", VDoc [("b", VDoc [("$gt", VInt32 5)])])])]
+  /\ Match [("a", VArr [VDoc [("b", VInt32 1)]; VDoc [("b", VInt32 7)]])]
+           [("a", VDoc [("$elemMatch", VDoc [("b", VDoc [("$gt", VInt32 5)])])])] = Ok true.
+Proof. vm_compute. repeat split; reflexivity. Qed.
 
 (* where the domain ends: lungo and the reference differ (lungo's answer last) *)
 Theorem C10_null_fanout_refuted :
